@@ -319,3 +319,13 @@ Proof.
   destruct (cleanup_preserves prog (program_wfl p en mm prog H)) as (_ & C2 & C3).
   split; [congruence|]. etransitivity; eauto.
 Qed.
+
+(* the additive reading of a Loop used as oracle for hand-built loops (Corr.exec_windows: the body played rep times one
+   after the other) is the tiling the code performs *)
+Require QV.C02.Corr.
+Lemma exec_windows_eq l : QV.C02.Corr.exec_windows l = loop_windows l.
+Proof.
+  induction l as [n wf ms ch IH] using loop_ind'. cbn [QV.C02.Corr.exec_windows]. rewrite loop_windows_eq.
+  rewrite seq_windows_repeat. f_equal. f_equal. f_equal. unfold pieces.
+  apply map_ext_Forall. eapply Forall_impl; [|exact IH]. intros c Hc. cbn beta. now rewrite Hc.
+Qed.
